@@ -312,7 +312,7 @@ func cmdRun(args []string) int {
 				hr.EngineReplays++
 			}
 			if !ok {
-				hr.Inconclusive = append(hr.Inconclusive, "UNCONFIRMED: counterexample did not reproduce in concrete replay: "+v.Msg+" @ "+v.Site)
+				hr.Inconclusive = append(hr.Inconclusive, "UNCONFIRMED: counterexample did not reproduce in concrete replay: "+v.Msg+" @ "+v.Site+" choices="+strings.Join(v.ChoiceTags, ","))
 				continue
 			}
 			if h.Native {
